@@ -105,6 +105,25 @@ def obligation(item):
     rcfg = pegcheck.ref_cfg(g)
     comments = comment_instances(g)
     rules = {r[0]: r for r in g['rules']}
+    import os
+    import tempfile
+    tmpd = tempfile.mkdtemp(prefix='c22_')
+    tmpf = os.path.join(tmpd, 'm.txt')
+    file_checks = [0]
+
+    def file_disagrees(mut):
+        """a model file holding exactly this text (no carriage returns: text mode translates those) is
+        accepted / rejected like the string, with the same model"""
+        if chr(13) in mut or file_checks[0] >= 60:
+            return None
+        file_checks[0] += 1
+        ks, ms = real_load(mm, mut)
+        kf, mf = pegcheck.real_load_file(mm, mut, tmpf)
+        if ks != kf:
+            return 'as a string: %s, as the content of a model file: %s' % (ks, kf)
+        if ks == 'ok' and not modelcmp.same(modelcmp.canon_real(ms), modelcmp.canon_real(mf)):
+            return 'string and file models differ: %s' % modelcmp.first_diff(modelcmp.canon_real(ms), modelcmp.canon_real(mf))
+        return None
     for text in texts:
         res['witnesses'] += 1
         toks = RefPeg(g['rules'], SymInput.concrete(text), **rcfg).tokens()
@@ -129,6 +148,11 @@ def obligation(item):
                         continue
                     seen.add((mut, active))
                     res['mutants'] += 1
+                    if mut[-1:] in WS_ALL or mut[:1] in WS_ALL:
+                        fd = file_disagrees(mut)
+                        if fd and len(res['violations']) < 3:
+                            res['violations'].append({'grammar': g['name'], 'text': text, 'mutant': mut, 'inserted': w,
+                                                      'at': q, 'active': active, 'from_file': True, 'detail': fd})
                     kind, detail, ce = c01.compare_one(g, mm, {}, mut)
                     res['validated'] += 1
                     if kind in ('accept', 'model'):
@@ -159,6 +183,8 @@ def obligation(item):
                                 res['violations'].append({'grammar': g['name'], 'text': text, 'mutant': mut,
                                                           'inserted': w, 'at': q, 'active': True,
                                                           'detail': 'model changed: %s' % modelcmp.first_diff(base, m1c)})
+    import shutil
+    shutil.rmtree(tmpd, ignore_errors=True)
     return res
 
 
@@ -214,6 +240,22 @@ def main():
 def replay(data):
     g = next(x for x in corpus.ALL + EXTRA if x['name'] == data['grammar'])
     mm = pegcheck.build_mm(g)
+    if data.get('from_file'):
+        import os
+        import shutil
+        import tempfile
+        d = tempfile.mkdtemp(prefix='c22r_')
+        try:
+            ks, ms = real_load(mm, data['mutant'])
+            kf, mf = pegcheck.real_load_file(mm, data['mutant'], os.path.join(d, 'm.txt'))
+            if ks != kf:
+                return True, 'string: %s, file: %s' % (ks, kf)
+            if ks == 'ok':
+                a, b = modelcmp.canon_real(ms), modelcmp.canon_real(mf)
+                return (not modelcmp.same(a, b)), modelcmp.first_diff(a, b)
+            return False, 'ok'
+        finally:
+            shutil.rmtree(d, ignore_errors=True)
     kind, detail, ce = c01.compare_one(g, mm, {}, data['mutant'])
     if kind in ('accept', 'model'):
         return True, detail
